@@ -1,7 +1,11 @@
 (* Correspondence entry points of property C18.
 
-   stream "c18": board-in ++ [move; n; t_1 .. t_n]  ->  [a_1 .. a_n], a_i = heur.SEE(b, move, t_i) as 0/1
+   stream "c18": board-in ++ [move; k; v_1 .. v_k; n; t_1 .. t_n]  ->  [a_1 .. a_n], a_i = heur.SEE(b, move, t_i) as 0/1
    ([-1; -1; -1] when the call panics: promotion bits 7 index outside PieceValues).
+   k = 0: the table of the source (Gen/SeeConsts.v) is in force.  k = 7 (configuration mode): the harness
+   has set the exported variable heur.PieceValues to v_1 .. v_7 for the call; model and judge use the
+   same table (Model/SeeT.v, Spec/SeeSpecT.v: the parametric copies; Proofs/SeeTable.v ties their
+   instance at the generated table to the definitions the theorems are about).
 
    [run_c18] is the exact model (Model/See.v).  [judge_c18] is the specification-level oracle
    (Spec/SeeSpec.v, independent of the model): it receives input ++ observed answers and accepts iff
@@ -10,18 +14,33 @@
    answers are monotone in the threshold.  Thresholds outside the stated domain |t| <= 20000 (where
    the int16 arithmetic may wrap) are not judged. *)
 From Coq Require Import NArith ZArith List Bool.
-From Chess3 Require Import Base.Bits Base.Word Model.Types Model.BoardDef Model.Board Model.See Spec.SeeSpec.
+From Chess3 Require Import Base.Bits Base.Word Model.Types Model.BoardDef Model.Board Gen.SeeConsts Model.See Model.SeeT
+  Spec.SeeSpec Spec.SeeSpecT.
 Import ListNotations.
 Open Scope Z_scope.
 
 Definition zb18 (b : bool) : Z := if b then 1 else 0.
 
+(* [k; v_1 .. v_k] ++ rest  ->  (table, rest) *)
+Definition take_table (l : list Z) : option (list Z * list Z) :=
+  match l with
+  | k :: rest =>
+      if k =? 0 then Some (PieceValues, rest)
+      else if k =? PieceValuesLen then Some (firstn (Z.to_nat k) rest, skipn (Z.to_nat k) rest)
+      else None
+  | [] => None
+  end.
+
 Definition run_c18 (l : list Z) : list Z :=
   match decode_board l with
-  | Some (b, m :: n :: ts) =>
-      let m := Z.to_N m in
-      if see_panics m then [-1; -1; -1]
-      else map (fun t => zb18 (see b m t)) (firstn (Z.to_nat n) ts)
+  | Some (b, m :: rest) =>
+      match take_table rest with
+      | Some (tbl, n :: ts) =>
+          let m := Z.to_N m in
+          if see_panics m then [-1; -1; -1]
+          else map (fun t => zb18 (see_t tbl b m t)) (firstn (Z.to_nat n) ts)
+      | _ => []
+      end
   | _ => []
   end.
 
@@ -49,7 +68,9 @@ Fixpoint zip {A B} (l : list A) (r : list B) : list (A * B) :=
 
 Definition judge_c18 (io : list Z) : list Z :=
   match decode_board io with
-  | Some (b, m :: n :: rest) =>
+  | Some (b, m :: rest0) =>
+    match take_table rest0 with
+    | Some (tbl, n :: rest) =>
       let m := Z.to_N m in
       let k := Z.to_nat n in
       let ts := firstn k rest in
@@ -59,8 +80,9 @@ Definition judge_c18 (io : list Z) : list Z :=
       else if negb (wf_boardb b) then [0; 91]                  (* hypothesis wf_board of theorem C18 *)
       else if negb (move_okb b m) then [0; 92]                 (* hypothesis move_ok of theorem C18 *)
       else if (piece_at b (victim_square b m) =? King)%N then [0; 93]   (* a king is never captured *)
+      else if negb (forallb (fun v => (0 <=? v) && (v <=? 12000)) tbl) then [0; 94]   (* table outside the no-wrap domain *)
       else
-        let bals := all_balances b m in
+        let bals := all_balances_t tbl b m in
         let obs := filter (fun ta => in_domain (fst ta)) (zip ts ans) in
         let explained (ta : Z * Z) :=
           let '(t, a) := ta in
@@ -76,5 +98,7 @@ Definition judge_c18 (io : list Z) : list Z :=
             | [] => [1]
             end
         end
+    | _ => [0; 99]
+    end
   | _ => [0; 99]
   end.
